@@ -194,7 +194,7 @@ def run(chk):
     quick = chk.tier == "quick"
     r = random.Random(chk.seed)
     shapes = T.tlc_trees(chk, 4 if quick else 5, 400 if quick else 100000, chk.seed) + (T.tlc_trees(chk, 6, 200, chk.seed + 2, which="random") if quick else T.tlc_trees(chk, 5, 3000, chk.seed + 2))
-    shapes = [t for t in shapes if not T.uses_components(t)]
+    # (documents that instantiate QML components are materialised as files: <customwidgets> is part of the form and belongs to no object)
     cases = []
     for n, t in enumerate(shapes):
         t = T.assign_ids(t, "actions" if n % 3 == 0 and any(T.kind(x["cls"]) in ("action", "menu") for x, _ in T.nodes(t)) else "all", r)
@@ -218,8 +218,11 @@ def run(chk):
     reqs = []
     for c in cases:
         i, t, oid, fault, ft, fextra, rt, rextra, marker = c
-        reqs.append({"id": "f%d" % i, "src": render_faulted(ft, fextra), "type_name": "Doc", "modes": ["omit"]})
-        reqs.append({"id": "r%d" % i, "src": T.document(rt, rextra), "type_name": "Doc", "modes": ["omit"]})
+        for rid, text in (("f%d" % i, render_faulted(ft, fextra)), ("r%d" % i, T.document(rt, rextra))):
+            if T.uses_components(t):
+                reqs.append({"id": rid, "files": dict(T.COMPONENTS, **{"Doc.qml": text}), "path": "Doc.qml", "src": text, "type_name": "Doc", "modes": ["omit"]})
+            else:
+                reqs.append({"id": rid, "src": text, "type_name": "Doc", "modes": ["omit"]})
     out = translate(reqs, metatypes=[QT5_METATYPES, VERIF_T_METATYPES])
     for c in cases:
         i, t, oid, fault, ft, fextra, rt, rextra, marker = c
@@ -248,6 +251,10 @@ def run(chk):
         fu, ru = T.parse_ui(fr["ui"]), T.parse_ui(rr["ui"])
         d = same_outside(ru["root"], fu["root"], oid if fault not in ("unknown_type", "non_object_type") else None,
                          skip_cells=fault == "dup_attached")     # losing its own attachment moves the object and the cursor after it
+        # the custom widget declarations belong to no object: a fault leaves them alone (a removed subtree may take its own classes with it)
+        cf, cr = sorted(map(str, fu.get("custom", []))), sorted(map(str, ru.get("custom", [])))
+        if cf != cr and not (fault in ("unknown_type", "non_object_type") and set(cf) <= set(cr)):
+            d.append("<customwidgets> differ: %s with the fault, %s without" % (cf, cr))
         # the reference form itself must be what ObjTree.tla says (guards against both forms being wrong alike)
         if ref_ok:
             d += ["reference: " + x for x in T.compare_form(refs["r%d" % i]["form"], ru["root"])]
